@@ -9,7 +9,9 @@ from urllib.parse import urlencode
 from harness import core
 from harness.checks.bodylib import base_environ
 
-CPS = [97, 98, 61, 38, 43, 37, 32, 59, 35, 63, 47, 49, 233, 8364, 0x1F600, 0x4E2D, 126, 95, 34, 39, 60, 10, 13, 0x7F, 0xFF, 0x100, 0x7FF, 0x800, 0xFFFF]
+CPS = [97, 98, 61, 38, 43, 37, 32, 59, 35, 63, 47, 49, 233, 8364, 0x1F600, 0x4E2D, 126, 95, 34, 39, 60, 10, 13, 0x7F, 0xFF, 0x100, 0x7FF, 0x800, 0xFFFF,
+       # text that is not in a Unicode normal form: combining marks after a base letter, conjoining jamo, compatibility signs
+       101, 0x301, 0x308, 0x1100, 0x1161, 0x2126, 0x212A, 0x212B, 0xFB01, 0x0041, 0x030A]
 
 
 def s2l(s):
@@ -80,7 +82,10 @@ def run(chk):
     junk = 'a=&+%;zZ9 \xe9€%C3%A9%FF%zz%4%%'
     for _ in range(4000 if thorough else 600):
         raw = ''.join(rng.choice(junk) for _ in range(rng.randint(0, 24)))
-        ch = rng.choice(['qsl', 'query'])
+        ch = rng.choice(['qsl', 'query', 'forms', 'params'])
+        if ch in ('forms', 'params'):
+            # a form body is bytes: raw octets that are not valid UTF-8 (a Latin-1 client, a cut multi-byte sequence) included
+            raw = ''.join(c if ord(c) < 256 else rng.choice('\xe9\xff\xc3\x80') for c in raw) or '\xe9=\xff'
         res, exc = parse_via(ch, raw)
         traces.append({'raw': s2l(raw), 'pairs': [], 'res': res, 'exc': exc, 'exact': False, 'ch': ch})
         chk.count(1, ('junk', raw))
